@@ -54,6 +54,36 @@ CHECKS = {
                      "values per name)."),
     "C08": rt("5/C08", "emit, then (parse, emit) repeatedly for each of the 7 kinds", SPACE,
               " Obligation: the texts of pass 2 and pass 3 (thorough: up to pass 5) are byte-identical."),
+    "C09": dict(level="model_checking", engine="E3", design="5/C09",
+                technique="TLC explicit-state model of sync (TLA+) with every model transition replayed against the implementation, plus bounded-exhaustive product enumeration",
+                text="models/SyncProtocol.tla specifies sync over 3 files x 5 abstract contents (written from the property text). TLC "
+                     "checks the model's own invariants and dumps the complete state graph (302 states, 4530 transitions); every Sync "
+                     "transition with a distinct (abstract pre-state, action) - 1125 - is replayed on real files through "
+                     "ground_truth: hand-written templates concretise the pre-state, an ast-based extractor that never calls doctrans "
+                     "abstracts the result, which must equal the model's successor (state, report, accepted/rejected). In addition the "
+                     "product truth kind x target subset x 6 pre-states per target x function/method x interface version x API/CLI "
+                     "and invocations with a second file of the truth's kind are enumerated exhaustively.",
+                note="Trusted: TLC, the gamma templates and the alpha extractor (mc/project.py). The model abstracts file contents to "
+                     "{Missing, Empty, NoDef, version 1, version 2}; interfaces are the 6 versions of mc/project.py."),
+    "C10": dict(level="model_checking", engine="E2", design="5/C10",
+                technique="explicit-state BFS over the byte-level project graph on the implementation (states = file bytes, events = sync / edit-truth)",
+                text="From each of 216 concrete start states (every combination of missing / empty / no definition / version 1 / "
+                     "version 2 / helper function + version 1 per file) all 9 sync events and 6 edit events are applied with the real "
+                     "ground_truth, breadth-first, states being exact byte snapshots, to depth 2 (thorough 4). On every sync "
+                     "transition the identical sync is run again and must be a self-loop; the truth file must be byte-identical; the "
+                     "returned report and the printed modified/unchanged lines must match the byte changes; a rejected sync must "
+                     "change nothing.",
+                note="The graph does not close under edit events (each edit opens new combinations), so a depth cap is used and the "
+                     "number of frontier states left at the cap is reported in the evidence."),
+    "C11": dict(level="exploration", engine="E1", design="5/C11",
+                technique="bounded-exhaustive enumeration of target modules around the synchronised definition, compared statement by statement via ast.dump",
+                text="Every target module of the generated family (prefix and suffix of 0..1 items quick / 0..2 thorough from 9 item "
+                     "templates incl. same-named methods, nested same-named classes, positional-only / *args functions, decorated and "
+                     "async functions, walrus / try blocks; definition absent / stale / agreeing; with / without trailing newline; "
+                     "three target kinds; method targets with sibling members) is synchronised with the real ground_truth and every "
+                     "statement other than the named definition must have an identical ast.dump, in order; the file must parse; at "
+                     "most one definition of the name may exist; extra body statements must survive.",
+                note="Trusted: CPython ast. The truth is a hand-written definition of another kind."),
     "C12": dict(level="exploration", engine="E5", design="5/C12",
                 technique="configuration sweep over hash seeds chosen to cover all k! set-iteration orders, plus exhaustive call-sequence enumeration in forked pristine processes",
                 text="(a) a battery of ~40 conversions (partially documented functions with 2..4 undocumented parameters, class + "
@@ -73,6 +103,30 @@ CHECKS = {
                      "Closure makes the verdict hold for call sequences of any length, not only the <=4 the property asks for.",
                 note="Trusted: copy.deepcopy, the canonical serialisation (parameter dicts, return entry, body statements via "
                      "ast.dump, ancestry attributes). No separate model: transitions are implementation executions."),
+    "C14": dict(level="exploration", engine="E1", design="5/C14",
+                technique="bounded-exhaustive enumeration of (input module, output module, address pairs, wrap, eval, API/CLI) calls judged by an independent ast-based masked-tree oracle",
+                text="All 6 orders of the input module x all 6 orders of the output module x every addressable input location x every "
+                     "addressable output location (plus non-resolving addresses), 1..3 pairs per call, with / without wrap template, "
+                     "eval on / off, through the API and the command line are executed on real files. Oracle: input bytes identical; "
+                     "output parses; with the addressed nodes (and their own default slot) masked the tree is unchanged; each "
+                     "addressed node carries the expected annotation; unresolvable addresses raise and leave the output untouched.",
+                note="Trusted: CPython ast; the independent resolver of mc/props/c15.py."),
+    "C15": dict(level="exploration", engine="E1", design="5/C15",
+                technique="bounded-exhaustive enumeration of modules x dotted paths against an independent resolver (node identity)",
+                text="Every module built from an ordered selection of <=3 (thorough <=4) distinct items out of 8 templates whose simple "
+                     "names collide across scopes, and every one of the 1884 paths of length <=3 over the 12-name pool, is resolved by "
+                     "find_in_ast on the tree returned by ast_parse and compared by node identity with an independent resolver; for "
+                     "every existing path RewriteAtQuery replaces a marker node and the result is compared with an independent "
+                     "replacement of exactly that node.",
+                note="Trusted: CPython ast. Bounded by the item templates (nesting depth 3, functions before and after classes)."),
+    "C16": dict(level="exploration", engine="E1", design="5/C16",
+                technique="bounded-exhaustive enumeration of function bodies x interfaces x routes, statement lists compared via ast.dump",
+                text="Every body (all sequences of <=2 quick / <=3 thorough distinct statements from 7 templates x 4 final statements) "
+                     "on each of 5 interfaces is carried through function->function, method->method, argparse->argparse and "
+                     "function->class __call__ with the real parse / emit functions; the non-docstring statements must be identical "
+                     "in order and multiplicity; for __call__ the reference is an independent scope-aware rewriter of parameter "
+                     "references.",
+                note="Trusted: CPython ast / unparse."),
     "C17": dict(level="exploration", engine="E1", design="5/C17",
                 technique="bounded-exhaustive input-space enumeration (every prose x value x type x phrase x removal tuple)",
                 text="Every tuple of the stated prose/value/type/phrase/removal alphabets is pushed through the real "
@@ -90,6 +144,25 @@ CHECKS = {
                      "L moves the line break across every position - with each of 7 emitter kinds, word_wrap on and off, parses "
                      "both artefacts and compares the projections field by field.",
                 note="Trusted: textwrap. Types are compared with whitespace removed, prose modulo runs of whitespace."),
+    "C19": dict(level="exploration", engine="E1", design="5/C19",
+                technique="bounded-exhaustive enumeration of gen invocations, output judged by ast / exec / inspect",
+                text="Every combination of mapping (ordered selections of 1..2 quick / 1..3 thorough entries from class+__init__ plain / "
+                     "annotated, function plain / annotated) x output type x name template x prepend shape x imports-from-file shape is "
+                     "run through the real gen in a fresh directory (the input module always under the same import name); the written "
+                     "module must parse, hold exactly the template-named definitions in mapping order, end in the matching __all__, "
+                     "carry prepend / imports once and first, execute, and expose the source's interface; an existing output must be "
+                     "refused and left untouched (command line).",
+                note="Trusted: CPython import system, exec, inspect, argparse."),
+    "C20": dict(level="fault_enumeration", engine="E4", design="5/C20",
+                technique="exhaustive fault / crash-point injection at every write-path open (before open, after open, mid-write) and every conversion / rendering step, plus exhaustive argv-space enumeration",
+                text="(a) 405 argv vectors (option presence / validity x file existence for sync, sync_properties, gen) go through the "
+                     "real entry point and are judged by an independent validator: rejected => usage error and unchanged directory "
+                     "snapshot, accepted => no exception. (b) for each operation (sync over 48 project states quick / 72 thorough, "
+                     "sync_properties, gen) a recording run lists the write-path opens and the conversion / rendering steps; then one "
+                     "execution per fault point injects that single fault and every file must equal its pre-image or its fault-free "
+                     "post-image.",
+                note="builtins.open is wrapped only for paths under the sandbox directory; OS-level torn writes / power loss are out "
+                     "of scope (the code never syncs)."),
 }
 
 PENDING = {}
